@@ -160,7 +160,7 @@ def tlc(family, module, cfg, *, workers=None, timeout=600, simulate=None, depth=
             cfg = cfgname
         meta = os.path.join(wd, "meta")
         cmd = ["timeout", str(int(timeout)), "java", "-XX:+UseParallelGC"]
-        cmd += ["-Xmx%s" % (heap or "8g"), "-Xss64m"]
+        cmd += ["-Xmx%s" % (heap or "8g"), "-Xss512m"]
         jtmp = os.path.join(wd, "jtmp")       # TLC leaves tlc-<n> directories in java.io.tmpdir
         os.makedirs(jtmp, exist_ok=True)
         cmd += ["-Djava.io.tmpdir=" + jtmp]
